@@ -71,6 +71,9 @@ def build_records(forest):
         r = LayerRecord(name=name)
         r.clipping = Clipping.NON_BASE if clip else Clipping.BASE
         r.blend_mode = BlendMode.PASS_THROUGH if rp else BlendMode.NORMAL
+        # visibility plays no part in the relation: clipping layers with an odd id are hidden (deterministic, so replays agree)
+        if clip and name.startswith("n") and int(name[1:]) % 2 == 1:
+            r.flags.visible = False
         return r
 
     def go(t):
@@ -258,10 +261,22 @@ def expected_fields(psd, pt_leaf_is_base=False):
     strict = psd.compatibility_mode in (CM.PAINT_TOOL_SAI, CM.CLIP_STUDIO_PAINT)
     exp = {}
 
+    def is_pass_through(l):
+        """read off the records (not through Group.blend_mode): a group's divider block - the nested key first, as the
+        tree builder takes it - carries its blend mode; without such a block, and for other layers, the record's"""
+        from psd_tools.constants import Tag
+
+        if l.is_group():
+            tb = l._record.tagged_blocks
+            blk = tb.get(Tag.NESTED_SECTION_DIVIDER_SETTING) or tb.get(Tag.SECTION_DIVIDER_SETTING)
+            if blk is not None:
+                return blk.data.blend_mode == BlendMode.PASS_THROUGH
+        return l._record.blend_mode == BlendMode.PASS_THROUGH
+
     def can_be_base(l):
         if not l.is_group() and pt_leaf_is_base:
             return True
-        return not (strict and l.blend_mode == BlendMode.PASS_THROUGH)
+        return not (strict and is_pass_through(l))
 
     def go(group):
         ls = list(group._layers)
@@ -304,9 +319,24 @@ def check_relation(ck, psd, inp, since, prev):
     """compare the stored fields with the definition; `since` = structural edits since the last recomputation,
     `prev` = the stored fields before those edits"""
     obs, exp = observed_fields(psd), expected_fields(psd)
-    if not same_fields(obs, exp) and not same_fields(obs, expected_fields(psd, True)):
+    if not same_fields(obs, exp):
+        exp2 = expected_fields(psd, True)
+        if same_fields(obs, exp2):
+            exp = exp2
+    if not same_fields(obs, exp):
         ck.fail("clip-relation-wrong", inp, names(psd, obs), names(psd, exp), since_recompute=list(since),
                 unchanged_since_last_recompute=bool(prev is not None and same_fields(obs, prev)),
+                mode=str(psd.compatibility_mode))
+        return False
+    # the PUBLIC accessors must show the same relation (hidden members included)
+    bad = []
+    for l in all_layers(psd):
+        run = exp[id(l)][0]
+        pub = list(l.clip_layers)
+        if len(pub) != len(run) or any(a is not b for a, b in zip(pub, run)) or bool(l.has_clip_layers()) != bool(run):
+            bad.append((lid(l), [lid(x) for x in pub], bool(l.has_clip_layers()), [lid(x) for x in run]))
+    if bad:
+        ck.fail("clip-accessor-wrong", inp, bad[:6], "layer.clip_layers / has_clip_layers() = the run the definition gives (hidden layers included)",
                 mode=str(psd.compatibility_mode))
         return False
     return True
@@ -460,6 +490,8 @@ class EditState(object):
         for d in self.docs:
             for l in all_layers(d):
                 self.reg[lid(l)] = l
+                if l.clipping_layer and lid(l) % 2 == 1:
+                    l.visible = False  # hidden members of clipping runs
 
     # -- bookkeeping (by scanning, never by trusting the library's parent pointers)
     def cont(self, cid):
@@ -507,6 +539,8 @@ class EditState(object):
             l = PixelLayer.frompil(_IM["im"], self.docs[doc], "n%d" % i)
             self.reg[i] = l
             l.clipping_layer = bool(clip)
+            if clip and i % 2 == 1:
+                l.visible = False
         elif k == "new_group":
             _, i, pcid, st, clip = op
             g = Group.new("n%d" % i, open_folder=bool(i % 2), parent=None if pcid is None else self.cont(pcid))
